@@ -5,9 +5,9 @@
 package lockset
 
 import (
-	"go/types"
 	"fmt"
 	"go/token"
+	"go/types"
 	"sort"
 	"strings"
 
@@ -32,9 +32,20 @@ type Lock struct {
 	Class string // (struct type, field) or local:<fn>:<var>
 	Mode  Mode
 	Fresh bool // the object holding the mutex was allocated in this function
+	// Handed: the lock was still held when a helper returned, and on that helper's path its
+	// owner had been registered (rule-defined tag "registered:<owner>"): a hand-over
+	Handed bool
+	// Via: the helper through which the lock came to be held here (nil if locked here)
+	Via *ssa.Function
 }
 
-func (l Lock) String() string { return l.Key + "(" + l.Mode.String() + ")" }
+func (l Lock) String() string {
+	s := l.Key + "(" + l.Mode.String() + ")"
+	if l.Handed {
+		s += "!"
+	}
+	return s
+}
 
 type deferred struct {
 	unlock *Lock
@@ -43,6 +54,7 @@ type deferred struct {
 
 type state struct {
 	held   []Lock
+	rel    []string // class/mode released on this path without having been acquired here
 	defers []deferred
 	tags   []string           // rule-defined events seen on this path (sorted set)
 	facts  map[ssa.Value]bool // truth of parameter-valued branch conditions on this path
@@ -59,6 +71,8 @@ func (s state) key() string {
 	sort.Strings(hs)
 	var b strings.Builder
 	b.WriteString(strings.Join(hs, ","))
+	b.WriteByte('~')
+	b.WriteString(strings.Join(s.rel, ","))
 	b.WriteByte('|')
 	for _, d := range s.defers {
 		if d.unlock != nil {
@@ -80,7 +94,7 @@ func (s state) key() string {
 }
 
 func (s state) clone() state {
-	n := state{held: append([]Lock(nil), s.held...), defers: append([]deferred(nil), s.defers...), tags: append([]string(nil), s.tags...)}
+	n := state{held: append([]Lock(nil), s.held...), rel: append([]string(nil), s.rel...), defers: append([]deferred(nil), s.defers...), tags: append([]string(nil), s.tags...)}
 	if len(s.facts) > 0 {
 		n.facts = map[ssa.Value]bool{}
 		for k, v := range s.facts {
@@ -119,6 +133,24 @@ type Leak struct {
 	At   string
 	Held []Lock
 	Tags []string
+	// Transfer: Fn is a helper (unexported or a literal, with static callers in the module):
+	// the locks pass to its callers, where they are tracked on; not a leak of Fn itself
+	Transfer bool
+}
+
+// retSummary: what a helper leaves behind for its caller.
+type retSummary struct {
+	held                     []Lock // locks held at every successful return (acquired in the helper)
+	heldFail                 []Lock // locks held at every return that reports an error
+	nOK                      int
+	nFail                    int
+	rel                      map[string]bool // "class/mode" released at every return without having been acquired there
+	tryLike                  *Lock           // single bool result: true iff this lock is held on return
+	heldTrue                 []Lock
+	nTrue, nFalse, boolOther int
+	falseHolds               bool
+	unlocker                 map[int]Lock // result #i is a bound Unlock/RUnlock of this lock
+	returns                  int
 }
 
 type Result struct {
@@ -140,6 +172,14 @@ type Result struct {
 	AtomicMaps map[string]string
 	Splits     []Split
 	Acts       []Split // every update that follows a lookup of the same map on its path
+	// acqRel[g][T]: caller-held "class/mode" entries that g has released on every path before it
+	// (or a callee of it) acquires class T: such a caller lock does not order before T
+	acqRel     map[*ssa.Function]map[string]map[string]bool
+	acqRelNext map[*ssa.Function]map[string]map[string]bool
+	errHolds   map[ssa.Value][]Lock // error value of a helper call -> locks held iff it is nil
+	sums       map[*ssa.Function]*retSummary
+	next       map[*ssa.Function]*retSummary
+	helper     map[*ssa.Function]bool
 }
 
 // Split: a map update that acts on a lookup made in an earlier critical section.
@@ -247,8 +287,28 @@ func AnalyzeAtomic(w *load.World, tagger Tagger, atomicMaps map[string]string) *
 		Acq: map[*ssa.Function]map[string]bool{}, Classes: map[string]bool{}, w: w,
 	}
 	r.summaries()
-	for _, f := range w.Fns {
-		r.explore(f)
+	r.findHelpers()
+	// helpers' return summaries feed their callers: iterate (call chains of helpers are short)
+	r.sums = map[*ssa.Function]*retSummary{}
+	for round := 0; round < 4; round++ {
+		r.Edges, r.Leaks, r.Splits, r.Acts, r.Undecided, r.States = nil, nil, nil, nil, nil, 0
+		r.Must, r.May = map[ssa.Instruction]map[string]Mode{}, map[ssa.Instruction]map[string]bool{}
+		r.next = map[*ssa.Function]*retSummary{}
+		r.errHolds = map[ssa.Value][]Lock{}
+		r.acqRel, r.acqRelNext = r.acqRelNext, map[*ssa.Function]map[string]map[string]bool{}
+		for _, f := range w.Fns {
+			r.explore(f)
+		}
+		same := len(r.next) == len(r.sums)
+		for f, n := range r.next {
+			if o := r.sums[f]; o == nil || o.sig() != n.sig() {
+				same = false
+			}
+		}
+		r.sums = r.next
+		if same {
+			break
+		}
 	}
 	r.entryHeld()
 	return r
@@ -334,12 +394,22 @@ func (r *Result) note(in ssa.Instruction, st state) {
 }
 
 func (r *Result) callEdges(f *ssa.Function, site ssa.CallInstruction, st state, at string) {
+	if r.helper[f] {
+		for _, g := range r.w.Callees(site, false) {
+			for c := range r.Acq[g] {
+				r.noteAcq(f, c, st)
+			}
+		}
+	}
 	if len(st.held) == 0 {
 		return
 	}
 	for _, g := range r.w.Callees(site, false) {
 		for c := range r.Acq[g] {
 			for _, h := range st.held {
+				if r.acqRel[g] != nil && r.acqRel[g][c] != nil && r.acqRel[g][c][h.Class+"/"+h.Mode.String()] {
+					continue // the helper lets go of this lock before it takes that one
+				}
 				r.Edges = append(r.Edges, Edge{From: h.Class, FromMode: h.Mode, To: c, Fn: f, At: at, Via: g, HeldFresh: h.Fresh})
 			}
 		}
@@ -366,6 +436,199 @@ func release(st *state, l Lock) {
 		if st.held[i].Key == l.Key && st.held[i].Mode == l.Mode {
 			st.held = append(st.held[:i], st.held[i+1:]...)
 			return
+		}
+	}
+	// a lock that came through a helper has the helper's name for it: match by class
+	for i := len(st.held) - 1; i >= 0; i-- {
+		if st.held[i].Via != nil && st.held[i].Class == l.Class && st.held[i].Mode == l.Mode {
+			st.held = append(st.held[:i], st.held[i+1:]...)
+			return
+		}
+	}
+	// not held here: the caller's lock (recorded for the helper's summary)
+	k := l.Class + "/" + l.Mode.String()
+	for _, x := range st.rel {
+		if x == k {
+			return
+		}
+	}
+	st.rel = append(st.rel, k)
+	sort.Strings(st.rel)
+}
+
+func releaseClass(st *state, class string, mode Mode) {
+	for i := len(st.held) - 1; i >= 0; i-- {
+		if st.held[i].Class == class && st.held[i].Mode == mode {
+			st.held = append(st.held[:i], st.held[i+1:]...)
+			return
+		}
+	}
+	k := class + "/" + mode.String()
+	for _, x := range st.rel {
+		if x == k {
+			return
+		}
+	}
+	st.rel = append(st.rel, k)
+	sort.Strings(st.rel)
+}
+
+func (s *retSummary) sig() string {
+	var parts []string
+	for _, h := range s.held {
+		parts = append(parts, "h:"+h.Class+h.Mode.String()+fmt.Sprint(h.Handed))
+	}
+	for _, h := range s.heldFail {
+		parts = append(parts, "f:"+h.Class+h.Mode.String()+fmt.Sprint(h.Handed))
+	}
+	for k := range s.rel {
+		parts = append(parts, "r:"+k)
+	}
+	if s.tryLike != nil {
+		parts = append(parts, "t:"+s.tryLike.Class+s.tryLike.Mode.String())
+	}
+	for i, l := range s.unlocker {
+		parts = append(parts, fmt.Sprintf("u%d:%s%s", i, l.Class, l.Mode))
+	}
+	sort.Strings(parts)
+	return strings.Join(parts, ";")
+}
+
+// findHelpers: unexported functions and literals with a static caller in the module.
+func (r *Result) findHelpers() {
+	r.helper = map[*ssa.Function]bool{}
+	for _, f := range r.w.Fns {
+		for _, b := range f.Blocks {
+			for _, in := range b.Instrs {
+				site, ok := in.(ssa.CallInstruction)
+				if !ok {
+					continue
+				}
+				if _, isGo := in.(*ssa.Go); isGo {
+					continue
+				}
+				g := staticTarget(site.Common())
+				if g == nil || len(g.Blocks) == 0 || !load.InMod(g) {
+					continue
+				}
+				name := g.Name()
+				if g.Parent() != nil || (name != "" && name[0] >= 'a' && name[0] <= 'z') {
+					r.helper[g] = true
+				}
+			}
+		}
+	}
+}
+
+// staticTarget: the function a call runs when that is known statically (a named function, a
+// method, or a literal called directly).
+func staticTarget(cc *ssa.CallCommon) *ssa.Function {
+	if g := cc.StaticCallee(); g != nil {
+		return g
+	}
+	if mc, ok := cc.Value.(*ssa.MakeClosure); ok {
+		g, _ := mc.Fn.(*ssa.Function)
+		return g
+	}
+	return nil
+}
+
+// boundUnlock: v is a method value mu.Unlock / mu.RUnlock.
+func boundUnlock(v ssa.Value) (Lock, bool) {
+	mc, ok := v.(*ssa.MakeClosure)
+	if !ok || len(mc.Bindings) != 1 {
+		return Lock{}, false
+	}
+	fn, _ := mc.Fn.(*ssa.Function)
+	if fn == nil {
+		return Lock{}, false
+	}
+	m := W
+	switch fn.String() {
+	case "(*sync.RWMutex).Unlock$bound", "(*sync.Mutex).Unlock$bound":
+	case "(*sync.RWMutex).RUnlock$bound":
+		m = R
+	default:
+		return Lock{}, false
+	}
+	k, fresh := ssax.Path(mc.Bindings[0])
+	return Lock{Key: k, Class: LockClass(mc.Bindings[0]), Mode: m, Fresh: fresh}, true
+}
+
+// unlockerValue: calling v releases a lock: a bound unlock, or the result of a helper that
+// returns one.
+func (r *Result) unlockerValue(v ssa.Value) (Lock, bool) {
+	if l, ok := boundUnlock(v); ok {
+		return l, true
+	}
+	idx := 0
+	var call *ssa.Call
+	switch x := v.(type) {
+	case *ssa.Extract:
+		call, _ = x.Tuple.(*ssa.Call)
+		idx = x.Index
+	case *ssa.Call:
+		call = x
+	}
+	if call == nil {
+		return Lock{}, false
+	}
+	g := staticTarget(call.Common())
+	if g == nil || r.sums[g] == nil {
+		return Lock{}, false
+	}
+	l, ok := r.sums[g].unlocker[idx]
+	if ok {
+		l.Via = g
+	}
+	return l, ok
+}
+
+// applyCall: a helper's return summary takes effect in the caller.
+func (r *Result) applyCall(st *state, site ssa.CallInstruction, tries map[ssa.Value]Lock) {
+	g := staticTarget(site.Common())
+	if g == nil || !r.helper[g] {
+		return
+	}
+	sm := r.sums[g]
+	if sm == nil {
+		return
+	}
+	for k := range sm.rel {
+		i := strings.LastIndex(k, "/")
+		mode := map[string]Mode{"R": R, "W": W}[k[i+1:]]
+		releaseClass(st, k[:i], mode)
+	}
+	inFail := func(h Lock) bool {
+		if sm.nFail == 0 {
+			return true
+		}
+		for _, x := range sm.heldFail {
+			if x.Class == h.Class && x.Mode == h.Mode {
+				return true
+			}
+		}
+		return false
+	}
+	for _, h := range sm.held {
+		h.Key = "via:" + load.FnKey(g) + ":" + h.Class
+		h.Via = g
+		h.Fresh = false
+		if !inFail(h) && tries != nil {
+			// held only when the helper reports success: decided where its error is tested
+			if ev := errResultOf(site); ev != nil {
+				r.errHolds[ev] = append(r.errHolds[ev], h)
+				continue
+			}
+		}
+		st.held = append(st.held, h)
+	}
+	if sm.tryLike != nil && tries != nil {
+		if v := site.Value(); v != nil {
+			l := *sm.tryLike
+			l.Key = "via:" + load.FnKey(g) + ":" + l.Class
+			l.Via = g
+			tries[v] = l
 		}
 	}
 }
@@ -424,6 +687,9 @@ func (r *Result) explore(f *ssa.Function) {
 				if kind, l, ok := AsLockOp(x.Common()); ok && (kind == "Unlock" || kind == "RUnlock") {
 					ll := l
 					st.defers = append(st.defers, deferred{unlock: &ll})
+				} else if l, ok := r.unlockerValue(x.Call.Value); ok && !x.Call.IsInvoke() {
+					ll := l
+					st.defers = append(st.defers, deferred{unlock: &ll})
 				} else {
 					dup := false
 					for _, d := range st.defers {
@@ -442,6 +708,7 @@ func (r *Result) explore(f *ssa.Function) {
 						release(&st, *d.unlock)
 					} else {
 						r.callEdges(f, d.call, st, r.w.At(d.call)+" (deferred)")
+						r.applyCall(&st, d.call, nil)
 					}
 				}
 				st.defers = nil
@@ -449,6 +716,7 @@ func (r *Result) explore(f *ssa.Function) {
 				if kind, l, ok := AsLockOp(x.Common()); ok {
 					switch kind {
 					case "Lock", "RLock":
+						r.noteAcq(f, l.Class, st)
 						for _, h := range st.held {
 							r.Edges = append(r.Edges, Edge{From: h.Class, FromMode: h.Mode, To: l.Class, Fn: f, At: r.w.At(in), AcqFresh: l.Fresh, HeldFresh: h.Fresh})
 						}
@@ -465,10 +733,17 @@ func (r *Result) explore(f *ssa.Function) {
 					}
 					continue
 				}
+				// calling a bound unlock (or what a helper returned as one)
+				if l, ok := r.unlockerValue(x.Call.Value); ok && !x.Call.IsInvoke() {
+					release(&st, l)
+					continue
+				}
 				r.callEdges(f, x, st, r.w.At(in))
+				r.applyCall(&st, x, tries)
 			case *ssa.Return:
+				r.noteReturn(f, x, st)
 				if len(st.held) > 0 {
-					r.Leaks = append(r.Leaks, Leak{Fn: f, Ret: x, At: r.w.At(in), Held: append([]Lock(nil), st.held...), Tags: append([]string(nil), st.tags...)})
+					r.Leaks = append(r.Leaks, Leak{Fn: f, Ret: x, At: r.w.At(in), Held: append([]Lock(nil), st.held...), Tags: append([]string(nil), st.tags...), Transfer: r.helper[f]})
 				}
 			}
 		}
@@ -478,6 +753,25 @@ func (r *Result) explore(f *ssa.Function) {
 				t.held = append(t.held, l)
 				work = append(work, item{it.b.Succs[0], t}, item{it.b.Succs[1], st})
 				continue
+			}
+			if bo, ok := ifi.Cond.(*ssa.BinOp); ok && (bo.Op == token.NEQ || bo.Op == token.EQL) {
+				var ev ssa.Value
+				switch {
+				case ssax.IsNilConst(bo.Y):
+					ev = bo.X
+				case ssax.IsNilConst(bo.X):
+					ev = bo.Y
+				}
+				if ls, ok := r.errHolds[ev]; ok && ev != nil {
+					okState := st.clone()
+					okState.held = append(okState.held, ls...)
+					nilSucc := 1 // err != nil: the false edge is "no error"
+					if bo.Op == token.EQL {
+						nilSucc = 0
+					}
+					work = append(work, item{it.b.Succs[nilSucc], okState}, item{it.b.Succs[1-nilSucc], st})
+					continue
+				}
 			}
 			// parameter-valued conditions are immutable: stay consistent along a path
 			if p, neg, isParam := paramCond(ifi.Cond); isParam {
@@ -847,4 +1141,165 @@ func (r *Result) entryHeld() {
 			}
 		}
 	}
+}
+
+// noteReturn folds one return state into the function's summary for its callers.
+func (r *Result) noteReturn(f *ssa.Function, ret *ssa.Return, st state) {
+	if !r.helper[f] {
+		return
+	}
+	sm := r.next[f]
+	first := sm == nil
+	if first {
+		sm = &retSummary{rel: map[string]bool{}, unlocker: map[int]Lock{}}
+		r.next[f] = sm
+	}
+	sm.returns++
+	// held: with the hand-over mark decided on this path
+	var held []Lock
+	for _, h := range st.held {
+		hh := h
+		for _, t := range st.tags {
+			if t == "registered:"+strings.TrimSuffix(h.Key, ".mu") {
+				hh.Handed = true
+			}
+		}
+		held = append(held, hh)
+	}
+	relNow := map[string]bool{}
+	for _, k := range st.rel {
+		relNow[k] = true
+	}
+	// a single bool result that says whether the lock is held
+	if len(ret.Results) == 1 && ret.Results[0].Type().String() == "bool" {
+		if bv, isC := ssax.ConstBool(ret.Results[0]); !isC {
+			sm.boolOther++
+		} else if bv {
+			if sm.nTrue == 0 {
+				sm.heldTrue = append([]Lock(nil), held...)
+			} else {
+				var keep []Lock
+				for _, h := range sm.heldTrue {
+					for _, c := range held {
+						if c.Class == h.Class && c.Mode == h.Mode {
+							keep = append(keep, h)
+							break
+						}
+					}
+				}
+				sm.heldTrue = keep
+			}
+			sm.nTrue++
+		} else {
+			sm.nFalse++
+			if len(held) > 0 {
+				sm.falseHolds = true
+			}
+		}
+		if sm.boolOther == 0 && sm.nTrue > 0 && len(sm.heldTrue) == 1 && !sm.falseHolds {
+			l := sm.heldTrue[0]
+			sm.tryLike = &l
+		} else {
+			sm.tryLike = nil
+		}
+	}
+	for i, res := range ret.Results {
+		if l, ok := boundUnlock(res); ok {
+			sm.unlocker[i] = l
+			// the lock the unlocker releases is the caller's to hold
+		}
+	}
+	failing := false
+	if n := len(ret.Results); n > 0 {
+		last := ret.Results[n-1]
+		if types.Identical(last.Type(), types.Universe.Lookup("error").Type()) && !ssax.IsNilConst(last) {
+			failing = true
+		}
+	}
+	meet := func(acc []Lock, n int, cur []Lock) []Lock {
+		if n == 0 {
+			return cur
+		}
+		var keep []Lock
+		for _, h := range acc {
+			for _, c := range cur {
+				if c.Class == h.Class && c.Mode == h.Mode {
+					if !c.Handed {
+						h.Handed = false
+					}
+					keep = append(keep, h)
+					break
+				}
+			}
+		}
+		return keep
+	}
+	if failing {
+		sm.heldFail = meet(sm.heldFail, sm.nFail, held)
+		sm.nFail++
+	} else {
+		sm.held = meet(sm.held, sm.nOK, held)
+		sm.nOK++
+	}
+	if first {
+		sm.rel = relNow
+		return
+	}
+	for k := range sm.rel {
+		if !relNow[k] {
+			delete(sm.rel, k)
+		}
+	}
+}
+
+// errResultOf: the error result value of a call (the last result), if it has one.
+func errResultOf(site ssa.CallInstruction) ssa.Value {
+	v := site.Value()
+	if v == nil {
+		return nil
+	}
+	errT := types.Universe.Lookup("error").Type()
+	if tup, ok := v.Type().(*types.Tuple); ok {
+		n := tup.Len()
+		if n == 0 || !types.Identical(tup.At(n-1).Type(), errT) {
+			return nil
+		}
+		if refs := v.Referrers(); refs != nil {
+			for _, r := range *refs {
+				if ex, ok := r.(*ssa.Extract); ok && ex.Index == n-1 {
+					return ex
+				}
+			}
+		}
+		return nil
+	}
+	if types.Identical(v.Type(), errT) {
+		return v
+	}
+	return nil
+}
+
+// noteAcq records, for a helper, which caller locks it has already released when it acquires class c.
+func (r *Result) noteAcq(f *ssa.Function, c string, st state) {
+	if !r.helper[f] {
+		return
+	}
+	m := r.acqRelNext[f]
+	if m == nil {
+		m = map[string]map[string]bool{}
+		r.acqRelNext[f] = m
+	}
+	cur := map[string]bool{}
+	for _, k := range st.rel {
+		cur[k] = true
+	}
+	if old, ok := m[c]; ok {
+		for k := range old {
+			if !cur[k] {
+				delete(old, k)
+			}
+		}
+		return
+	}
+	m[c] = cur
 }
